@@ -42,6 +42,7 @@ void (*on_deadlock)() = 0; uint32_t (*on_point)() = 0;
 __thread int self_id = -1;
 struct Start { void *(*f)(void *); void *a; int id; }; Start starts[SCHED_MAXT];
 
+long vclock_jumps = 0;   // virtual clock: constant, except that it jumps one hour ahead each time a timed wait expires
 void fwait(int *f) { while (__atomic_load_n(f, __ATOMIC_ACQUIRE) == 0) syscall(SYS_futex, f, FUTEX_WAIT, 0, 0, 0, 0); __atomic_store_n(f, 0, __ATOMIC_RELEASE); }
 void fwake(int *f) { __atomic_store_n(f, 1, __ATOMIC_RELEASE); syscall(SYS_futex, f, FUTEX_WAKE, 1, 0, 0, 0); }
 
@@ -106,8 +107,8 @@ void schedule() {
     if (n == 0) { bool all = true; for (int t = 0; t < nth; t++) if (th[t].st != FIN) all = false; finish(all ? SCHED_END_OK : SCHED_END_DEADLOCK, all ? "all threads finished" : "DEADLOCK: no thread enabled"); }
     int pick = from_prefix(opts, n);
     record(0, curen, nthr, opts, n, pick);
-    if (pick >= 100) {           // the timed wait of thread t expires
-      int t = pick - 100; Th &x = th[t]; x.timedout = true;
+    if (pick >= 100) {           // the timed wait of thread t expires: virtual time jumps past every pending deadline
+      int t = pick - 100; Th &x = th[t]; x.timedout = true; vclock_jumps++;
       if (x.st == B_COND) { for (int i = 0; i < nwait; i++) if (waiters[i].t == t) { waiters[i] = waiters[--nwait]; break; } x.st = B_MUTEX; x.obj = x.relock; }
       else x.st = RUN;
       continue;
@@ -146,7 +147,7 @@ template <class F> F real(const char *name) { return (F)dlsym(RTLD_NEXT, name); 
 extern "C" {
 void sched_begin(sched_trace *t, const int16_t *pfx, int npfx) {
   tr = t; prefix = pfx; nprefix = npfx; step = 0; tr->npoints = 0; tr->end = SCHED_END_NONE; tr->notes_len = 0; tr->end_msg[0] = 0;
-  nth = 1; cur = 0; self_id = 0; th[0].st = RUN; th[0].fut = 0; nmu = 0; nwait = 0; active = true;
+  nth = 1; cur = 0; self_id = 0; th[0].st = RUN; th[0].fut = 0; nmu = 0; nwait = 0; vclock_jumps = 0; active = true;
 }
 void sched_end(void) { th[0].st = FIN; active = false; finish(SCHED_END_OK, "ok"); }
 void sched_on_deadlock(void (*cb)(void)) { on_deadlock = cb; }
@@ -246,6 +247,12 @@ int select(int nfds, fd_set *rs, fd_set *ws, fd_set *es, struct timeval *tv) {
 }
 ssize_t write(int fd, const void *b, size_t n) { if (active && fd > 2) point(); return syscall(SYS_write, fd, b, n); }
 ssize_t read(int fd, void *b, size_t n) { if (active && fd > 2) point(); return syscall(SYS_read, fd, b, n); }
+// libstdc++'s wait_for/wait_until re-read the clock after pthread_cond_clockwait returns to decide between timeout and
+// no_timeout, so the clock must agree with the scheduler's decision, not with real time.
+int clock_gettime(clockid_t id, struct timespec *ts) {
+  if (!active || self_id < 0) return (int)syscall(SYS_clock_gettime, id, ts);
+  ts->tv_sec = 1000000 + 3600 * vclock_jumps; ts->tv_nsec = 0; return 0;
+}
 int usleep(useconds_t us) { if (!active || self_id < 0) { struct timespec ts = {(time_t)(us / 1000000), (long)(us % 1000000) * 1000}; return (int)syscall(SYS_nanosleep, &ts, 0); } point(); return 0; }
 int nanosleep(const struct timespec *req, struct timespec *rem) { if (!active || self_id < 0) return (int)syscall(SYS_nanosleep, req, rem); point(); return 0; }
 int clock_nanosleep(clockid_t c, int f, const struct timespec *req, struct timespec *rem) { if (!active || self_id < 0) return (int)syscall(SYS_clock_nanosleep, c, f, req, rem); point(); return 0; }
